@@ -63,11 +63,53 @@ type edRegEntry struct {
 	pt  *edPoint
 }
 
+// the neutral element and its three non-canonical encodings (y = 1 with the sign bit set,
+// y = p + 1 with either sign): RFC 8032 decoders that do not insist on canonical encodings,
+// like this package and the standard library, accept all four and re-encode canonically
+func edIdentityEnc() []byte {
+	b := make([]byte, 32)
+	b[0] = 1
+	return b
+}
+
+func edNonCanonIdentity(k int) []byte {
+	b := make([]byte, 32)
+	switch k {
+	case 0: // y = 1, sign bit set
+		b[0], b[31] = 1, 0x80
+	default: // y = p + 1
+		for i := range b {
+			b[i] = 0xff
+		}
+		b[0] = 0xee
+		if k == 1 {
+			b[31] = 0x7f
+		}
+	}
+	return b
+}
+
+// one decision per candidate; the candidates' outcomes merge into accepted-as-identity or not
+func edIsIdentityEncoding(x []byte) bool {
+	if vSameTerm(x, edIdentityEnc()) {
+		return true
+	}
+	id := vBytesEq(x, edIdentityEnc())
+	for k := 0; k < 3 && !id; k++ {
+		id = vBytesEq(x, edNonCanonIdentity(k))
+	}
+	return id
+}
+
+func edIsIdentity(p *edPoint) bool {
+	return p.nf == 0 && vSameTerm(p.base, edIdentityEnc())
+}
+
 func edGet(p interface{}) *edPoint {
 	id := vGhostGet(p, "edpoint")
 	if len(id) == 0 {
-		// the zero Point / identity
-		return &edPoint{base: vUFN("ed_identity", 32)}
+		// the zero Point stands for the identity
+		return &edPoint{base: edIdentityEnc()}
 	}
 	return edGhost[int(id[0])]
 }
@@ -80,6 +122,9 @@ func edSet(p interface{}, pt *edPoint) {
 
 func edEncode(p *edPoint) []byte {
 	var enc []byte
+	if edIsIdentity(p) {
+		return edIdentityEnc()
+	}
 	switch p.nf {
 	case 0:
 		enc = clone(p.base)
@@ -98,6 +143,12 @@ func edEncode(p *edPoint) []byte {
 		vAssume(vBytesEq(enc, vUFN("ed_mul3", 32, p.base, p.f3, p.f2, p.f1)))
 	}
 	vAssume(vUFBool("ed_valid", enc))
+	if p.nf > 0 {
+		// Bytes() produces canonical encodings only
+		for k := 0; k < 3; k++ {
+			vAssume(!vBytesEq(enc, edNonCanonIdentity(k)))
+		}
+	}
 	for i := range edReg {
 		if edReg[i].pt == p {
 			return enc
@@ -117,6 +168,10 @@ func EdPointSetBytes(v interface{}, x []byte) (interface{}, error) {
 			return v, nil
 		}
 	}
+	if edIsIdentityEncoding(x) {
+		edSet(v, &edPoint{base: edIdentityEnc()})
+		return v, nil
+	}
 	for i := range edReg {
 		if vBytesEq(edReg[i].enc, x) {
 			edSet(v, edReg[i].pt)
@@ -135,6 +190,9 @@ func EdPointSetBytes(v interface{}, x []byte) (interface{}, error) {
 func EdPointBytes(v interface{}) []byte { return edEncode(edGet(v)) }
 
 func edMul(p *edPoint, f []byte) *edPoint {
+	if edIsIdentity(p) {
+		return &edPoint{base: edIdentityEnc()}
+	}
 	inv := vUF("perm_sc_inv", 32, f)
 	vAssume(vBytesEq(vUF("perm_sc_inv", 32, inv), f))
 	if p.nf >= 1 && (vSameTerm(p.f1, inv) || vBytesEq(p.f1, inv)) {
@@ -174,11 +232,28 @@ func EdPointScalarBaseMult(v interface{}, x interface{}) interface{} {
 
 func EdPointNegate(v interface{}, p interface{}) interface{} {
 	q := edGet(p)
+	if edIsIdentity(q) {
+		edSet(v, &edPoint{base: edIdentityEnc()})
+		return v
+	}
 	edSet(v, &edPoint{base: vUFN("ed_neg", 32, edEncode(q))})
 	return v
 }
 
 func EdPointVarTimeDoubleScalarBaseMult(v interface{}, a interface{}, A interface{}, b interface{}) interface{} {
+	// [a]O + [0]B = O
+	if edIsIdentity(edGet(A)) && vBytesEq(scBytesOf(b), make([]byte, 32)) {
+		edSet(v, &edPoint{base: edIdentityEnc()})
+		return v
+	}
 	edSet(v, &edPoint{base: vUFN("ed_double_mult", 32, scBytesOf(a), edEncode(edGet(A)), scBytesOf(b))})
 	return v
+}
+
+// Equal compares points, i.e. canonical encodings
+func EdPointEqual(v interface{}, u interface{}) int {
+	if vBytesEq(edEncode(edGet(v)), edEncode(edGet(u))) {
+		return 1
+	}
+	return 0
 }
